@@ -1,51 +1,26 @@
-// Copyright 2013 The Go Authors. All rights reserved.
-// Use of this source code is governed by a BSD-style
-// license that can be found in the LICENSE file.
+package sym
 
-package interp
-
-// Values
+// Interpreter values. Derived from golang.org/x/tools/go/ssa/interp (BSD licence),
+// extended with symbolic scalars (*Term), rune vectors, association-list maps and
+// reflect-wrapped native objects.
 //
-// All interpreter values are "boxed" in the empty interface, value.
-// The range of possible dynamic types within value are:
-//
-// - bool
-// - numbers (all built-in int/float/complex types are distinguished)
-// - string
-// - map[value]value --- maps for which  usesBuiltinMap(keyType)
-//   *hashmap        --- maps for which !usesBuiltinMap(keyType)
-// - chan value
-// - []value --- slices
-// - iface --- interfaces.
-// - structure --- structs.  Fields are ordered and accessed by numeric indices.
-// - array --- arrays.
-// - *value --- pointers.  Careful: *value is a distinct type from *array etc.
-// - *ssa.Function \
-//   *ssa.Builtin   } --- functions.  A nil 'func' is always of type *ssa.Function.
-//   *closure      /
-// - tuple --- as returned by Return, Next, "value,ok" modes, etc.
-// - iter --- iterators from 'range' over map or string.
-// - bad --- a poison pill for locals that have gone out of scope.
-// - rtype -- the interpreter's concrete implementation of reflect.Type
-// - **deferred -- the address of a frame's defer stack for a Defer._Stack.
-//
-// Note that nil is not on this list.
-//
-// Pay close attention to whether or not the dynamic type is a pointer.
-// The compiler cannot help you since value is an empty interface.
+// Dynamic types of value:
+//   bool, intN/uintN/floatN, string          concrete scalars
+//   *Term                                     symbolic scalar (Bool / Int / String / opaque)
+//   runesV                                    symbolic string as a vector of code points (C19)
+//   symBytes                                  []byte with symbolic content (opaque byte string)
+//   structure, array, []value, *value, *mapV, iface, tuple, *closure, *ssa.Function, *ssa.Builtin
+//   nativeV                                   reflect-wrapped native Go object (go/types, go/ast, ...)
+//   *absObj                                   abstract native (symbolic signature shapes)
 
 import (
 	"bytes"
 	"fmt"
 	"go/types"
-	"io"
 	"reflect"
 	"strings"
-	"sync"
-	"unsafe"
 
 	"golang.org/x/tools/go/ssa"
-	"golang.org/x/tools/go/types/typeutil"
 )
 
 type value interface{}
@@ -55,18 +30,11 @@ type tuple []value
 type array []value
 
 type iface struct {
-	t types.Type // never an "untyped" type
+	t types.Type // dynamic type; nil for a nil interface; may be nil with v a nativeV (type comes from reflect)
 	v value
 }
 
 type structure []value
-
-// For map, array, *array, slice, string or channel.
-type iter interface {
-	// next returns a Tuple (key, value, ok).
-	// key and value are unaliased, e.g. copies of the sequence element.
-	next() tuple
-}
 
 type closure struct {
 	Fn  *ssa.Function
@@ -75,255 +43,87 @@ type closure struct {
 
 type bad struct{}
 
-type rtype struct {
-	t types.Type
+// runesV is a string whose content is a vector of symbolic code points of concrete length.
+type runesV struct {
+	cps []*Term
 }
 
-// Hash functions and equivalence relation:
+// symBytes is a []byte whose content is the (possibly symbolic) string s.
+type symBytes struct {
+	s value // string or *Term(SStr)
+}
 
-// hashString computes the FNV hash of s.
-func hashString(s string) int {
-	var h uint32
-	for i := 0; i < len(s); i++ {
-		h ^= uint32(s[i])
-		h *= 16777619
+type nativeV struct {
+	rv reflect.Value
+}
+
+type iter interface {
+	next(r *Run) tuple
+}
+
+func (v iface) isNil() bool { return v.t == nil && v.v == nil }
+
+// ---------------------------------------------------------------- maps
+
+type mapEntry struct {
+	k, v value
+}
+
+// mapV is an insertion-ordered association list; keys may be symbolic.
+type mapV struct {
+	keyT, elemT types.Type
+	entries     []mapEntry
+}
+
+// ---------------------------------------------------------------- helpers
+
+func mustDeref(t types.Type) types.Type {
+	if p, ok := t.Underlying().(*types.Pointer); ok {
+		return p.Elem()
 	}
-	return int(h)
+	panic(fmt.Sprintf("mustDeref: not a pointer: %v", t))
 }
 
-var (
-	mu     sync.Mutex
-	hasher = typeutil.MakeHasher()
-)
+func coreType(t types.Type) types.Type { return t.Underlying() }
 
-// hashType returns a hash for t such that
-// types.Identical(x, y) => hashType(x) == hashType(y).
-func hashType(t types.Type) int {
-	return int(hasher.Hash(t))
-}
-
-// usesBuiltinMap returns true if the built-in hash function and
-// equivalence relation for type t are consistent with those of the
-// interpreter's representation of type t.  Such types are: all basic
-// types (bool, numbers, string), pointers and channels.
-//
-// usesBuiltinMap returns false for types that require a custom map
-// implementation: interfaces, arrays and structs.
-//
-// Panic ensues if t is an invalid map key type: function, map or slice.
-func usesBuiltinMap(t types.Type) bool {
-	switch t := t.(type) {
-	case *types.Basic, *types.Chan, *types.Pointer:
+func isSym(v value) bool {
+	switch v.(type) {
+	case *Term, runesV:
 		return true
-	case *types.Named, *types.Alias:
-		return usesBuiltinMap(t.Underlying())
-	case *types.Interface, *types.Array, *types.Struct:
-		return false
 	}
-	panic(fmt.Sprintf("invalid map key type: %T", t))
+	return false
 }
 
-func (x array) eq(t types.Type, _y interface{}) bool {
-	y := _y.(array)
-	tElt := t.Underlying().(*types.Array).Elem()
-	for i, xi := range x {
-		if !equals(tElt, xi, y[i]) {
-			return false
-		}
-	}
-	return true
-}
-
-func (x array) hash(t types.Type) int {
-	h := 0
-	tElt := t.Underlying().(*types.Array).Elem()
-	for _, xi := range x {
-		h += hash(t, tElt, xi)
-	}
-	return h
-}
-
-func (x structure) eq(t types.Type, _y interface{}) bool {
-	y := _y.(structure)
-	tStruct := t.Underlying().(*types.Struct)
-	for i, n := 0, tStruct.NumFields(); i < n; i++ {
-		if f := tStruct.Field(i); !f.Anonymous() {
-			if !equals(f.Type(), x[i], y[i]) {
-				return false
-			}
-		}
-	}
-	return true
-}
-
-func (x structure) hash(t types.Type) int {
-	tStruct := t.Underlying().(*types.Struct)
-	h := 0
-	for i, n := 0, tStruct.NumFields(); i < n; i++ {
-		if f := tStruct.Field(i); !f.Anonymous() {
-			h += hash(t, f.Type(), x[i])
-		}
-	}
-	return h
-}
-
-// nil-tolerant variant of types.Identical.
-func sameType(x, y types.Type) bool {
-	if x == nil {
-		return y == nil
-	}
-	return y != nil && types.Identical(x, y)
-}
-
-func (x iface) eq(t types.Type, _y interface{}) bool {
-	y := _y.(iface)
-	return sameType(x.t, y.t) && (x.t == nil || equals(x.t, x.v, y.v))
-}
-
-func (x iface) hash(outer types.Type) int {
-	return hashType(x.t)*8581 + hash(outer, x.t, x.v)
-}
-
-func (x rtype) hash(_ types.Type) int {
-	return hashType(x.t)
-}
-
-func (x rtype) eq(_ types.Type, y interface{}) bool {
-	return types.Identical(x.t, y.(rtype).t)
-}
-
-// equals returns true iff x and y are equal according to Go's
-// linguistic equivalence relation for type t.
-// In a well-typed program, the dynamic types of x and y are
-// guaranteed equal.
-func equals(t types.Type, x, y value) bool {
-	switch x := x.(type) {
-	case bool:
-		return x == y.(bool)
-	case int:
-		return x == y.(int)
-	case int8:
-		return x == y.(int8)
-	case int16:
-		return x == y.(int16)
-	case int32:
-		return x == y.(int32)
-	case int64:
-		return x == y.(int64)
-	case uint:
-		return x == y.(uint)
-	case uint8:
-		return x == y.(uint8)
-	case uint16:
-		return x == y.(uint16)
-	case uint32:
-		return x == y.(uint32)
-	case uint64:
-		return x == y.(uint64)
-	case uintptr:
-		return x == y.(uintptr)
-	case float32:
-		return x == y.(float32)
-	case float64:
-		return x == y.(float64)
-	case complex64:
-		return x == y.(complex64)
-	case complex128:
-		return x == y.(complex128)
-	case string:
-		return x == y.(string)
-	case *value:
-		return x == y.(*value)
-	case chan value:
-		return x == y.(chan value)
-	case structure:
-		return x.eq(t, y)
-	case array:
-		return x.eq(t, y)
-	case iface:
-		return x.eq(t, y)
-	case rtype:
-		return x.eq(t, y)
-	}
-
-	// Since map, func and slice don't support comparison, this
-	// case is only reachable if one of x or y is literally nil
-	// (handled in eqnil) or via interface{} values.
-	panic(fmt.Sprintf("comparing uncomparable type %s", t))
-}
-
-// Returns an integer hash of x such that equals(x, y) => hash(x) == hash(y).
-// The outer type is used only for the "unhashable" panic message.
-func hash(outer, t types.Type, x value) int {
-	switch x := x.(type) {
-	case bool:
-		if x {
-			return 1
-		}
-		return 0
-	case int:
+// asTerm converts a scalar interpreter value into a term of the matching sort.
+func asTerm(v value) *Term {
+	switch x := v.(type) {
+	case *Term:
 		return x
-	case int8:
-		return int(x)
-	case int16:
-		return int(x)
-	case int32:
-		return int(x)
-	case int64:
-		return int(x)
-	case uint:
-		return int(x)
-	case uint8:
-		return int(x)
-	case uint16:
-		return int(x)
-	case uint32:
-		return int(x)
-	case uint64:
-		return int(x)
-	case uintptr:
-		return int(x)
-	case float32:
-		return int(x)
-	case float64:
-		return int(x)
-	case complex64:
-		return int(real(x))
-	case complex128:
-		return int(real(x))
+	case bool:
+		return BoolT(x)
 	case string:
-		return hashString(x)
-	case *value:
-		return int(uintptr(unsafe.Pointer(x)))
-	case chan value:
-		return int(uintptr(reflect.ValueOf(x).Pointer()))
-	case structure:
-		return x.hash(t)
-	case array:
-		return x.hash(t)
-	case iface:
-		return x.hash(t)
-	case rtype:
-		return x.hash(t)
+		return StrT(x)
+	case int, int8, int16, int32, int64, uint, uint8, uint16, uint32, uint64, uintptr:
+		return IntT(asInt64(x))
 	}
-	panic(fmt.Sprintf("unhashable type %v", outer))
+	panic(unsupported(fmt.Sprintf("asTerm(%T)", v)))
 }
 
-// reflect.Value struct values don't have a fixed shape, since the
-// payload can be a scalar or an aggregate depending on the instance.
-// So store (and load) can't simply use recursion over the shape of the
-// rhs value, or the lhs, to copy the value; we need the static type
-// information.  (We can't make reflect.Value a new basic data type
-// because its "structness" is exposed to Go programs.)
-
-// load returns the value of type T in *addr.
+// load returns the value of type T in *addr (deep copy of aggregates).
 func load(T types.Type, addr *value) value {
 	switch T := T.Underlying().(type) {
 	case *types.Struct:
-		v := (*addr).(structure)
+		v, ok := (*addr).(structure)
+		if !ok {
+			return *addr // opaque payload stored in a struct slot (stubbed library types)
+		}
 		a := make(structure, len(v))
 		for i := range a {
-			a[i] = load(T.Field(i).Type(), &v[i])
+			if i < T.NumFields() {
+				a[i] = load(T.Field(i).Type(), &v[i])
+			} else {
+				a[i] = v[i]
+			}
 		}
 		return a
 	case *types.Array:
@@ -342,10 +142,18 @@ func load(T types.Type, addr *value) value {
 func store(T types.Type, addr *value, v value) {
 	switch T := T.Underlying().(type) {
 	case *types.Struct:
-		lhs := (*addr).(structure)
-		rhs := v.(structure)
+		lhs, ok1 := (*addr).(structure)
+		rhs, ok2 := v.(structure)
+		if !ok1 || !ok2 {
+			*addr = v
+			return
+		}
 		for i := range lhs {
-			store(T.Field(i).Type(), &lhs[i], rhs[i])
+			if i < T.NumFields() {
+				store(T.Field(i).Type(), &lhs[i], rhs[i])
+			} else {
+				lhs[i] = rhs[i]
+			}
 		}
 	case *types.Array:
 		lhs := (*addr).(array)
@@ -358,167 +166,331 @@ func store(T types.Type, addr *value, v value) {
 	}
 }
 
-// Prints in the style of built-in println.
-// (More or less; in gc println is actually a compiler intrinsic and
-// can distinguish println(1) from println(interface{}(1)).)
-func writeValue(buf *bytes.Buffer, v value) {
-	switch v := v.(type) {
-	case nil, bool, int, int8, int16, int32, int64, uint, uint8, uint16, uint32, uint64, uintptr, float32, float64, complex64, complex128, string:
-		fmt.Fprintf(buf, "%v", v)
+// copyVal deep-copies aggregates (value semantics) without type information.
+func copyVal(v value) value {
+	switch x := v.(type) {
+	case structure:
+		a := make(structure, len(x))
+		for i := range x {
+			a[i] = copyVal(x[i])
+		}
+		return a
+	case array:
+		a := make(array, len(x))
+		for i := range x {
+			a[i] = copyVal(x[i])
+		}
+		return a
+	}
+	return v
+}
 
-	case map[value]value:
-		buf.WriteString("map[")
-		sep := ""
-		for k, e := range v {
-			buf.WriteString(sep)
-			sep = " "
-			writeValue(buf, k)
-			buf.WriteString(":")
-			writeValue(buf, e)
+// ---------------------------------------------------------------- equality
+
+// eqv returns x == y for type t as a bool or a *Term(Bool).
+func (r *Run) eqv(t types.Type, x, y value) value {
+	// nil comparisons of reference types
+	switch t.Underlying().(type) {
+	case *types.Map, *types.Signature, *types.Slice:
+		return isNilRef(x) == isNilRef(y) && (isNilRef(x) || isNilRef(y))
+	}
+	if tx, ok := x.(*Term); ok {
+		return simplifyBool(Eq(tx, coerceTerm(y, tx.Sort)))
+	}
+	if ty, ok := y.(*Term); ok {
+		return simplifyBool(Eq(coerceTerm(x, ty.Sort), ty))
+	}
+	switch x := x.(type) {
+	case runesV:
+		return simplifyBool(runesEq(x, y))
+	case string:
+		if ry, ok := y.(runesV); ok {
+			return simplifyBool(runesEq(ry, x))
+		}
+		return x == y.(string)
+	case bool:
+		return x == y.(bool)
+	case int, int8, int16, int32, int64, uint, uint8, uint16, uint32, uint64, uintptr:
+		return asInt64(x) == asInt64(y) && reflect.TypeOf(x) == reflect.TypeOf(y)
+	case float32:
+		return x == y.(float32)
+	case float64:
+		return x == y.(float64)
+	case complex64:
+		return x == y.(complex64)
+	case complex128:
+		return x == y.(complex128)
+	case *value:
+		if ny, ok := y.(nativeV); ok {
+			return x == nil && nativeIsNil(ny)
+		}
+		return x == y.(*value)
+	case nativeV:
+		return nativeEq(x, y)
+	case *absObj:
+		yo, _ := y.(*absObj)
+		return x == yo
+	case structure:
+		tS := t.Underlying().(*types.Struct)
+		var acc value = true
+		yv := y.(structure)
+		for i, n := 0, tS.NumFields(); i < n; i++ {
+			if f := tS.Field(i); f.Name() != "_" {
+				acc = andV(acc, r.eqv(f.Type(), x[i], yv[i]))
+			}
+		}
+		return acc
+	case array:
+		tE := t.Underlying().(*types.Array).Elem()
+		var acc value = true
+		yv := y.(array)
+		for i := range x {
+			acc = andV(acc, r.eqv(tE, x[i], yv[i]))
+		}
+		return acc
+	case iface:
+		yi := y.(iface)
+		if x.isNil() || yi.isNil() {
+			return x.isNil() && yi.isNil()
+		}
+		if nx, ok := x.v.(nativeV); ok {
+			return nativeEq(nx, yi.v)
+		}
+		if _, ok := yi.v.(nativeV); ok {
+			return false
+		}
+		if ax, ok := x.v.(*absObj); ok {
+			ay, _ := yi.v.(*absObj)
+			return ax == ay
+		}
+		if x.t == nil || yi.t == nil || !types.Identical(x.t, yi.t) {
+			return false
+		}
+		return r.eqv(x.t, x.v, yi.v)
+	case *ssa.Function:
+		return x == nil && isNilRef(y)
+	case *closure:
+		return false
+	}
+	panic(unsupported(fmt.Sprintf("comparing %T (type %s)", x, t)))
+}
+
+func isNilRef(v value) bool {
+	switch x := v.(type) {
+	case *mapV:
+		return x == nil
+	case *ssa.Function:
+		return x == nil
+	case *closure:
+		return x == nil
+	case []value:
+		return x == nil
+	case symBytes:
+		return false
+	case nativeV:
+		return nativeIsNil(x)
+	case *absObj:
+		return x == nil
+	}
+	panic(unsupported(fmt.Sprintf("isNilRef(%T)", v)))
+}
+
+func coerceTerm(v value, s Sort) *Term {
+	if rv, ok := v.(runesV); ok {
+		return runesToStr(rv)
+	}
+	return asTerm(v)
+}
+
+func simplifyBool(t *Term) value {
+	if t.IsConst() {
+		return t.B
+	}
+	return t
+}
+
+func andV(a, b value) value {
+	if ab, ok := a.(bool); ok {
+		if !ab {
+			return false
+		}
+		return b
+	}
+	if bb, ok := b.(bool); ok {
+		if !bb {
+			return false
+		}
+		return a
+	}
+	return simplifyBool(And(a.(*Term), b.(*Term)))
+}
+
+func notV(a value) value {
+	if ab, ok := a.(bool); ok {
+		return !ab
+	}
+	return simplifyBool(Not(a.(*Term)))
+}
+
+// ---------------------------------------------------------------- printing
+
+func writeValue(buf *bytes.Buffer, v value, depth int) {
+	if depth > 6 {
+		buf.WriteString("…")
+		return
+	}
+	switch v := v.(type) {
+	case nil, bool, int, int8, int16, int32, int64, uint, uint8, uint16, uint32, uint64, uintptr, float32, float64, complex64, complex128:
+		fmt.Fprintf(buf, "%v", v)
+	case string:
+		fmt.Fprintf(buf, "%q", v)
+	case *Term:
+		buf.WriteString(v.String())
+	case runesV:
+		buf.WriteString("runes[")
+		for i, c := range v.cps {
+			if i > 0 {
+				buf.WriteString(" ")
+			}
+			buf.WriteString(c.String())
 		}
 		buf.WriteString("]")
-
-	case *hashmap:
+	case symBytes:
+		buf.WriteString("bytes(")
+		writeValue(buf, v.s, depth+1)
+		buf.WriteString(")")
+	case *mapV:
 		buf.WriteString("map[")
-		sep := " "
-		for _, e := range v.entries() {
-			for e != nil {
-				buf.WriteString(sep)
-				sep = " "
-				writeValue(buf, e.key)
+		if v != nil {
+			for i, e := range v.entries {
+				if i > 0 {
+					buf.WriteString(" ")
+				}
+				writeValue(buf, e.k, depth+1)
 				buf.WriteString(":")
-				writeValue(buf, e.value)
-				e = e.next
+				writeValue(buf, e.v, depth+1)
 			}
 		}
 		buf.WriteString("]")
-
-	case chan value:
-		fmt.Fprintf(buf, "%v", v) // (an address)
-
 	case *value:
 		if v == nil {
 			buf.WriteString("<nil>")
 		} else {
-			fmt.Fprintf(buf, "%p", v)
+			buf.WriteString("&")
+			writeValue(buf, *v, depth+1)
 		}
-
 	case iface:
-		fmt.Fprintf(buf, "(%s, ", v.t)
-		writeValue(buf, v.v)
-		buf.WriteString(")")
-
+		if v.isNil() {
+			buf.WriteString("<nil>")
+			return
+		}
+		writeValue(buf, v.v, depth+1)
 	case structure:
 		buf.WriteString("{")
 		for i, e := range v {
 			if i > 0 {
 				buf.WriteString(" ")
 			}
-			writeValue(buf, e)
+			writeValue(buf, e, depth+1)
 		}
 		buf.WriteString("}")
-
 	case array:
 		buf.WriteString("[")
 		for i, e := range v {
 			if i > 0 {
 				buf.WriteString(" ")
 			}
-			writeValue(buf, e)
+			writeValue(buf, e, depth+1)
 		}
 		buf.WriteString("]")
-
 	case []value:
 		buf.WriteString("[")
 		for i, e := range v {
 			if i > 0 {
 				buf.WriteString(" ")
 			}
-			writeValue(buf, e)
+			writeValue(buf, e, depth+1)
 		}
 		buf.WriteString("]")
-
-	case *ssa.Function, *ssa.Builtin, *closure:
-		fmt.Fprintf(buf, "%p", v) // (an address)
-
-	case rtype:
-		buf.WriteString(v.t.String())
-
+	case *ssa.Function:
+		if v == nil {
+			buf.WriteString("<nil func>")
+		} else {
+			buf.WriteString(v.String())
+		}
+	case *ssa.Builtin:
+		buf.WriteString(v.Name())
+	case *closure:
+		buf.WriteString("closure:" + v.Fn.String())
 	case tuple:
-		// Unreachable in well-formed Go programs
 		buf.WriteString("(")
 		for i, e := range v {
 			if i > 0 {
 				buf.WriteString(", ")
 			}
-			writeValue(buf, e)
+			writeValue(buf, e, depth+1)
 		}
 		buf.WriteString(")")
-
+	case nativeV:
+		if !v.rv.IsValid() {
+			buf.WriteString("native<invalid>")
+		} else if v.rv.CanInterface() {
+			s := fmt.Sprintf("%v", v.rv.Interface())
+			if len(s) > 120 {
+				s = s[:120] + "…"
+			}
+			fmt.Fprintf(buf, "native<%s %s>", v.rv.Type(), s)
+		} else {
+			fmt.Fprintf(buf, "native<%s>", v.rv.Type())
+		}
+	case *absObj:
+		fmt.Fprintf(buf, "abs<%s#%d>", v.class, v.id)
 	default:
 		fmt.Fprintf(buf, "<%T>", v)
 	}
 }
 
-// Implements printing of Go values in the style of built-in println.
 func toString(v value) string {
 	var b bytes.Buffer
-	writeValue(&b, v)
+	writeValue(&b, v, 0)
 	return b.String()
 }
 
-// ------------------------------------------------------------------------
-// Iterators
+// ---------------------------------------------------------------- iterators
 
 type stringIter struct {
 	*strings.Reader
 	i int
 }
 
-func (it *stringIter) next() tuple {
+func (it *stringIter) next(r *Run) tuple {
 	okv := make(tuple, 3)
 	ch, n, err := it.ReadRune()
-	ok := err != io.EOF
+	ok := err == nil
 	okv[0] = ok
 	if ok {
 		okv[1] = it.i
 		okv[2] = ch
+	} else {
+		okv[1] = 0
+		okv[2] = rune(0)
 	}
 	it.i += n
 	return okv
 }
 
+// mapIter iterates over a snapshot of the entries in an order chosen by the run
+// (every permutation is explored when order exploration is on).
 type mapIter struct {
-	iter *reflect.MapIter
-	ok   bool
+	entries []mapEntry
+	pos     int
 }
 
-func (it *mapIter) next() tuple {
-	it.ok = it.iter.Next()
-	if !it.ok {
-		return []value{false, nil, nil}
+func (it *mapIter) next(r *Run) tuple {
+	if it.pos >= len(it.entries) {
+		return tuple{false, nil, nil}
 	}
-	k, v := it.iter.Key().Interface(), it.iter.Value().Interface()
-	return []value{true, k, v}
-}
-
-type hashmapIter struct {
-	iter *reflect.MapIter
-	ok   bool
-	cur  *entry
-}
-
-func (it *hashmapIter) next() tuple {
-	for {
-		if it.cur != nil {
-			k, v := it.cur.key, it.cur.value
-			it.cur = it.cur.next
-			return []value{true, k, v}
-		}
-		it.ok = it.iter.Next()
-		if !it.ok {
-			return []value{false, nil, nil}
-		}
-		it.cur = it.iter.Value().Interface().(*entry)
-	}
+	e := it.entries[it.pos]
+	it.pos++
+	return tuple{true, e.k, e.v}
 }
